@@ -241,3 +241,38 @@ fn c10_jumps_never_land_on_push_immediates() {
     }
     println!("CASES c10_jump_into_immediates {cases}");
 }
+
+/// every string of 3 to 5 bytes over an alphabet of bytes that mean something to somebody (opcodes, push opcodes, the
+/// CBOR map markers a1..a4 of compiler metadata, small lengths): one entry per byte, lossless, whatever the tail looks like
+#[test]
+fn c10_structured_short_strings_keep_one_entry_per_byte() {
+    std::panic::set_hook(Box::new(|_| {}));
+    let alphabet = [0x00u8, 0x01, 0x02, 0x04, 0x33, 0x5b, 0x60, 0x62, 0x7f, 0xa1, 0xa2, 0xa4, 0x64, 0xfe];
+    let mut cases = 0u64;
+    for len in 3..=5usize {
+        let total = alphabet.len().pow(len as u32);
+        // all strings of length 3 and 4, every 7th of length 5
+        let step = if len == 5 { 7 } else { 1 };
+        let mut i = 0usize;
+        while i < total {
+            let mut v = Vec::with_capacity(len);
+            let mut x = i;
+            for _ in 0..len { v.push(alphabet[x % alphabet.len()]); x /= alphabet.len(); }
+            check(&v);
+            cases += 1;
+            i += step;
+        }
+    }
+    // and longer strings ending in a metadata-like trailer: <code> a1..a4 <payload> <big-endian length of the trailer>
+    for marker in [0xa1u8, 0xa2, 0xa3, 0xa4] {
+        for payload in 0..40usize {
+            let mut v = vec![0x60, 0x01, 0x60, 0x00, 0x55, 0x00, marker];
+            v.extend(std::iter::repeat(0x64).take(payload));
+            let l = (payload + 1) as u16;
+            v.extend(l.to_be_bytes());
+            check(&v);
+            cases += 1;
+        }
+    }
+    println!("CASES c10_structured_strings {cases}");
+}
